@@ -92,8 +92,8 @@ func (x *run) macro(m macro) {
 	}
 }
 
-func runMacroCase(r *common.Run, addrs []int, ms []macro, class string) {
-	runCaseWith(r, addrs, func(x *run) {
+func runMacroCase(r *common.Run, addrs []int, cf nsConf, ms []macro, class string) {
+	runCaseWith(r, addrs, cf, func(x *run) {
 		for _, m := range ms {
 			x.macro(m)
 		}
@@ -219,7 +219,7 @@ func runContention(r *common.Run) int {
 				return
 			}
 			r.Mark("case contention %d", n)
-			runMacroCase(r, cf.addrs, ms, "contention")
+			runMacroCase(r, cf.addrs, nsConfs['c'], ms, "contention")
 			n++
 		})
 	}
@@ -232,7 +232,7 @@ func runContention(r *common.Run) int {
 			ms = append(ms, alpha[r.Rnd.Intn(len(alpha))])
 		}
 		r.Mark("case contention %d", n)
-		runMacroCase(r, cf.addrs, ms, "contention-random")
+		runMacroCase(r, cf.addrs, nsConfs["ccccsa"[r.Rnd.Intn(6)]], ms, "contention-random")
 		n++
 	}
 	return n
